@@ -11,7 +11,10 @@
 (*             LimitedDataRead;                                            *)
 (*  "snapshot" SnapshotUpdate::publish (rrdp/update.rs:255-263),           *)
 (*  "delta"    DeltaUpdate::publish (rrdp/update.rs:379-390): the decoded  *)
-(*             object is read through LimitedDataRead (rrdp/http.rs:484).  *)
+(*             object is read through LimitedDataRead (rrdp/http.rs:484);  *)
+(*  "delta_replace"  the same element with a hash attribute: the object    *)
+(*             replaces one the copy already holds (update_object instead  *)
+(*             of publish_object; one read for both).                      *)
 (*                                                                         *)
 (* Both the configured limit and the Content-Length are Option<u64> in the *)
 (* code; Rust orders None below every Some(_).  Variant "as_shipped" is    *)
@@ -45,7 +48,7 @@ TaGate(sz, len, lim) ==
 ObjGate(sz, lim) == ReadOk(sz, lim)
 
 Init ==
-  /\ limit \in Limits /\ size \in Sizes /\ place \in {"ta", "snapshot", "delta"}
+  /\ limit \in Limits /\ size \in Sizes /\ place \in {"ta", "snapshot", "delta", "delta_replace"}
   /\ hasLen \in BOOLEAN
   /\ (place # "ta") => hasLen          \* the Content-Length only matters for the trust anchor request
   /\ accepted = FALSE /\ done = FALSE
